@@ -4,6 +4,7 @@ import (
 	"encoding/binary"
 	"fmt"
 	"testing"
+	"time"
 
 	erpc "github.com/henrylee2cn/erpc/v6"
 	"github.com/henrylee2cn/erpc/v6/socket"
@@ -13,13 +14,14 @@ import (
 )
 
 type c06Case struct {
-	Proto   string
-	Mode    string // server | client
-	Limit   uint32
-	Chunks  [][]byte // hostile byte strings, written one after the other
-	Pending int      // client mode: number of calls pending while the bytes arrive
-	ReadSch []int
-	Cycle   bool
+	Proto    string
+	Mode     string // server | client
+	Limit    uint32
+	PauseEOF bool     // the remote end closes only after the session had time to react to the input
+	Chunks   [][]byte // hostile byte strings, written one after the other
+	Pending  int      // client mode: number of calls pending while the bytes arrive
+	ReadSch  []int
+	Cycle    bool
 }
 
 func hostileBytes(t *rapid.T, proto vt.NamedProto, limit uint32) ([]byte, string) {
@@ -100,6 +102,7 @@ func genC06(t *rapid.T, protos []vt.NamedProto) (c06Case, []string) {
 		classes = append(classes, cls)
 	}
 	c.Pending = rapid.IntRange(0, 4).Draw(t, "pending")
+	c.PauseEOF = rapid.Bool().Draw(t, "pauseeof")
 	c.ReadSch, c.Cycle = vt.Chunks(t, "chunks")
 	return c, classes
 }
@@ -159,7 +162,11 @@ func runC06(c c06Case, protos []vt.NamedProto) []string {
 			control("during")
 		}
 	}
-	// input exhausted: EOF
+	// input exhausted: EOF, at once or after the session had time to react to what it read
+	if c.PauseEOF {
+		vt.WaitUntilFor(2*time.Millisecond, func() bool { return !sess.Health() })
+		time.Sleep(200 * time.Microsecond)
+	}
 	pair.A.Close()
 	if !vt.WaitClosed(sess.CloseNotify()) {
 		failf("%s", vt.Hang("close notification of the session after the input was exhausted and the remote closed"))
